@@ -24,6 +24,7 @@ def _module():
     m = types.ModuleType(name)
     src = '''
 from taskchain.parameter import AutoParameterObject, ParameterObject
+from taskchain.chain import ChainObject
 
 class AutoA(AutoParameterObject):
     def __init__(self, a, b=1, verbose=False):
@@ -41,6 +42,15 @@ class AutoB(AutoParameterObject):
     def dont_persist_default_value_args():
         return ['y']
 
+class Hooked(ChainObject, AutoParameterObject):
+    """a parameter object that is told about the chain it is used in"""
+    def __init__(self, a):
+        self.a = a
+        self._tcv_chain = None
+
+    def init_chain(self, chain):
+        self._tcv_chain = sorted(chain.tasks)
+
 class User(ParameterObject):
     def __init__(self, text):
         self.text = text
@@ -54,7 +64,7 @@ class Plain:
         self.kwargs = kwargs
 '''
     exec(src, m.__dict__)
-    for c in ('AutoA', 'AutoB', 'User', 'Plain'):
+    for c in ('AutoA', 'AutoB', 'Hooked', 'User', 'Plain'):
         getattr(m, c).__module__ = name
     sys.modules[name] = m
     return m
@@ -63,6 +73,7 @@ class Plain:
 AUTO_SIGS = {
     'AutoA': dict(params=[('a', None), ('b', [1]), ('verbose', [False])], ignore=['verbose', 'debug'], dropdef=[]),
     'AutoB': dict(params=[('x', [None]), ('y', [None]), ('debug', [0])], ignore=['verbose', 'debug'], dropdef=['y']),
+    'Hooked': dict(params=[('a', None)], ignore=['verbose', 'debug'], dropdef=[]),
 }
 
 
